@@ -225,6 +225,10 @@ class BinaryRBM(nn.Module):
             self.sample_h_given_v(v, out=h)
             self.sample_v_given_h(h, out=v)
 
+        if overwrite and v is not initial_state and v.device == initial_state.device:
+            # .to() had to copy (other dtype): write the result back as requested
+            initial_state.copy_(v)
+
         return v
 
     def partition(self, space):
